@@ -152,6 +152,7 @@ FUNCTIONS = [
     ('create_mpint', 'writebuf.py', 'WriteBuf._create_mpint', {'unit': 'Logic5', 'extract': 'block',
         'select': [('range', ('assign', 'length'), ('if-names', ['signed']))],
         'free': {'n': 'int', 'signed': 'bool', 'bits': 'int'}, 'out': ['data']}),
+    ('mpint1_nbytes', 'readbuf.py', 'ReadBuf.read_mpint1', {'unit': 'Logic5', 'extract': 'assign-expr', 'var': 'n', 'free': {'bits': 'int'}}),
     ('is_print_ascii_char', 'utils.py', 'Utils.is_print_ascii', {'unit': 'Logic2', 'extract': 'lambda', 'params': ['int']}),
     # candidates that are outside the subset (kept in the table so that the reason is reported on every run)
     ('ctoi', 'utils.py', 'Utils.ctoi', {}),
